@@ -458,3 +458,1321 @@ Proof. intros H HW. apply scan_all_no_hang; auto. apply plain_seg_ok; auto. Qed.
 Theorem rich_terminates pairbrk is_space hasbreak residue W input : 0 <= W ->
   snd (run unit (rich_segf hasbreak pairbrk) (fun s => s) is_space hasbreak residue W input tt) <> Hang.
 Proof. intros HW. apply scan_all_no_hang; auto. apply rich_seg_ok. Qed.
+
+(* [kept is_space a b]: a and b differ only by whitespace cells *)
+Inductive kept (is_space : cell -> bool) : list cell -> list cell -> Prop :=
+| kept_nil : kept is_space [] []
+| kept_same c a b : kept is_space a b -> kept is_space (c :: a) (c :: b)
+| kept_drop c a b : is_space c = true -> kept is_space a b -> kept is_space a (c :: b)
+| kept_add c a b : is_space c = true -> kept is_space a b -> kept is_space (c :: a) b.
+
+Section Kept.
+  Variable is_space : cell -> bool.
+  Notation kept := (kept is_space).
+  Notation spaces := (Forall (fun c => is_space c = true)).
+
+  Lemma kept_refl l : kept l l.
+  Proof. induction l; constructor; auto. Qed.
+
+  Lemma kept_spaces a b : spaces a -> spaces b -> kept a b.
+  Proof.
+    induction 1 as [|x a Hx Ha IH]; intros Hb.
+    - induction Hb; constructor; auto.
+    - apply kept_add; auto.
+  Qed.
+
+  Lemma kept_app a b c d : kept a b -> kept c d -> kept (a ++ c) (b ++ d).
+  Proof. induction 1; intros; cbn [app]; auto; constructor; auto. Qed.
+
+  Lemma kept_nonspace a b : kept a b -> nonspace is_space a = nonspace is_space b.
+  Proof.
+    induction 1 as [|c a b H IH|c a b Hc H IH|c a b Hc H IH]; auto; unfold nonspace in *; cbn [filter].
+    - rewrite IH. reflexivity.
+    - rewrite Hc. cbn. exact IH.
+    - rewrite Hc. cbn. exact IH.
+  Qed.
+
+  (* any per-cell content that whitespace cells do not have is conserved *)
+  Lemma kept_content {X} (content : cell -> list X) a b :
+    (forall c, is_space c = true -> content c = []) ->
+    kept a b -> flat_map content a = flat_map content b.
+  Proof.
+    intros Hsp. induction 1 as [|c a b H IH|c a b Hc H IH|c a b Hc H IH]; auto; cbn [flat_map].
+    - rewrite IH. reflexivity.
+    - rewrite (Hsp _ Hc). exact IH.
+    - rewrite (Hsp _ Hc). exact IH.
+  Qed.
+End Kept.
+
+Section GenericSpec.
+  Variable St : Type.
+  Variable segf : St -> list cell -> option (nat * bool * St).
+  Variable reset : St -> St.
+  Variables is_space hasbreak : cell -> bool.
+  Variable residue : cell -> list cell.
+
+  Notation trim := (trim_right is_space).
+  Notation sloop := (scan_loop St segf reset is_space hasbreak residue).
+  Notation sscan := (scan St segf reset is_space hasbreak residue).
+  Notation sall := (scan_all St segf reset is_space hasbreak residue).
+  Notation srun := (run St segf reset is_space hasbreak residue).
+  Notation spaces := (Forall (fun c => is_space c = true)).
+  Notation chain := (chain St segf is_space).
+  Notation final := (final St segf reset is_space hasbreak residue).
+
+  Hypothesis Hseg : seg_ok St segf.
+  (* [good]: what is known of the cells of the text; [ws]: the cells that may be lost *)
+  Variable good : cell -> Prop.
+  Variable ws : cell -> bool.
+  (* a trailing line break is whitespace, and so is what is left of its cell *)
+  Hypothesis Hbrk_space : forall c, hasbreak c = true -> is_space c = true.
+  Hypothesis Hws : forall c, good c -> is_space c = true -> ws c = true.
+  Hypothesis Hres : forall c r, good c -> hasbreak c = true -> In r (residue c) ->
+                                is_space r = true /\ ws r = true.
+  Notation wspaces := (Forall (fun c => ws c = true)).
+
+  Definition fits (W : Z) (l : list cell) : Prop :=
+    sumw (trim l) <= W \/ (length (trim l) <= 1)%nat.
+
+  Lemma fits_b_iff W l : fits_b is_space W l = true <-> fits W l.
+  Proof. unfold fits_b, fits. rewrite orb_true_iff, Z.leb_le, Nat.leb_le. tauto. Qed.
+
+  Lemma fits_of_sum W l : wok l -> sumw l <= W -> fits W l.
+  Proof. intros Hw H. left. pose proof (sumw_trim_le is_space l Hw). lia. Qed.
+
+  Lemma fits_of_len W l : (length l <= 1)%nat -> fits W l.
+  Proof. intros H. right. pose proof (trim_length_le is_space l). lia. Qed.
+
+  Lemma rev_nil_inv {A} (l : list A) : rev l = [] -> l = [].
+  Proof. intros H. rewrite <- (rev_involutive l), H. reflexivity. Qed.
+
+  Lemma snoc_cases {A} (l : list A) : l = [] \/ exists l' x, l = l' ++ [x].
+  Proof.
+    destruct l as [|a l]; [left; reflexivity|]. right.
+    destruct (@exists_last A (a :: l)) as [l' [x H]]; [discriminate|]. eauto.
+  Qed.
+
+  Lemma good_spaces l : Forall good l -> spaces l -> wspaces l.
+  Proof.
+    intros Hg Hs. rewrite Forall_forall in *. intros c Hc. apply Hws; auto.
+  Qed.
+
+  Lemma strip_shape seg : Forall good seg ->
+    exists sp sp', seg = trim seg ++ sp /\ strip hasbreak residue seg = trim seg ++ sp' /\
+    spaces sp /\ spaces sp' /\ wspaces sp /\ wspaces sp'.
+  Proof.
+    intros Hg.
+    destruct (trim_spec is_space seg) as [sp [Hs Hsp]].
+    assert (Hgsp : Forall good sp) by (rewrite Hs in Hg; apply Forall_app in Hg; tauto).
+    pose proof (good_spaces _ Hgsp Hsp) as Hwsp.
+    unfold strip. destruct (rev seg) as [|c r] eqn:Er.
+    - apply rev_nil_inv in Er. subst seg. exists [], []. cbn. repeat split; constructor.
+    - assert (Hseg' : seg = rev r ++ [c]).
+      { rewrite <- (rev_involutive seg), Er. reflexivity. }
+      destruct (hasbreak c) eqn:Hc; [|exists sp, sp; repeat split; auto].
+      pose proof (Hbrk_space _ Hc) as Hcs.
+      assert (Hgc : good c).
+      { rewrite Hseg' in Hg. apply Forall_app in Hg. destruct Hg as [_ Hg]. inversion Hg; auto. }
+      destruct (snoc_cases sp) as [->|[sp0 [z ->]]].
+      + exfalso. rewrite app_nil_r in Hs.
+        destruct (trim_last is_space seg) as [Ht|[x [y [Ht Hy]]]].
+        * rewrite Ht in Hs. rewrite Hs in Hseg'. destruct (rev r); discriminate.
+        * rewrite Ht in Hs. rewrite Hs in Hseg'. apply app_inj_tail in Hseg'.
+          destruct Hseg' as [_ ->]. congruence.
+      + remember (trim seg) as t. rewrite Hs in Hseg'. rewrite app_assoc in Hseg'.
+        apply app_inj_tail in Hseg'. destruct Hseg' as [Hr ->].
+        exists (sp0 ++ [c]), (sp0 ++ residue c). rewrite <- Hr, <- app_assoc.
+        split; [exact Hs|]. split; [reflexivity|]. split; [exact Hsp|].
+        apply Forall_app in Hsp. apply Forall_app in Hwsp.
+        split; [|split; [apply Forall_app; tauto|]]; apply Forall_app; (split; [tauto|]);
+          apply Forall_forall; intros w Hw; eapply Hres; eauto.
+  Qed.
+
+  Lemma chain_split W st rest w stq pre restq : chain W st rest w stq pre restq -> rest = pre ++ restq.
+  Proof.
+    induction 1 as [|st rest w n st1 stq pre restq Hne Hs H1 H2 Hc IH]; [reflexivity|].
+    rewrite <- app_assoc, <- IH. symmetry. apply firstn_skipn.
+  Qed.
+
+  Lemma chain_width W st rest w stq pre restq : chain W st rest w stq pre restq -> w <= W -> w + sumw pre <= W.
+  Proof.
+    induction 1 as [|st rest w n st1 stq pre restq Hne Hs H1 H2 Hc IH]; intros Hw; [cbn; lia|].
+    rewrite sumw_app. specialize (IH H2). lia.
+  Qed.
+
+  (* what one Scan call does *)
+  Lemma scan_spec W rest st tok rest' st' :
+    0 <= W < 65536 -> wok rest -> sumw rest < 65536 -> Forall good rest ->
+    sscan W rest st = ScanLine tok rest' st' ->
+    exists consumed, rest = consumed ++ rest' /\ consumed <> [] /\
+      kept ws tok consumed /\ fits W tok.
+  Proof.
+    intros HW Hwok Hov Hgood. unfold scan. destruct rest as [|c0 r0] eqn:Erest; [discriminate|].
+    rewrite <- Erest in *. assert (Hne : rest <> []) by (rewrite Erest; discriminate).
+    replace (is_nil rest) with false by (rewrite Erest; reflexivity). cbn [orb].
+    destruct (W =? 0) eqn:EW; [discriminate|]. intros H.
+    apply loop_explained in H; auto; try lia.
+    destruct H as [stq [pre [restq [Hc [Hq Hf]]]]]. cbn [app] in Hf. rewrite Z.add_0_l in Hf.
+    pose proof (chain_split _ _ _ _ _ _ _ Hc) as Hsplit.
+    pose proof (chain_width _ _ _ _ _ _ _ Hc ltac:(lia)) as Hwq. rewrite Z.add_0_l in Hwq.
+    assert (Hwpre : wok pre) by (rewrite Hsplit in Hwok; apply wok_app in Hwok; tauto).
+    assert (Hwq' : wok restq) by (rewrite Hsplit in Hwok; apply wok_app in Hwok; tauto).
+    assert (Hgq : Forall good restq) by (rewrite Hsplit in Hgood; apply Forall_app in Hgood; tauto).
+    assert (Hgseg : forall n, Forall good (firstn n restq)).
+    { intros n. rewrite <- (firstn_skipn n restq) in Hgq. apply Forall_app in Hgq. tauto. }
+    pose proof (sumw_nonneg _ Hwpre) as Hn0.
+    assert (Hsumq : sumw pre + sumw restq < 65536) by (rewrite <- sumw_app, <- Hsplit; lia).
+    inversion Hf as [n br stn tk ov Hs H1 H2 | n br stn Hs H1 H2 | n stn Hs H1 H2 | n stn Hs H1 H2 H3];
+      clear Hf; subst tok rest' st'.
+    - (* long word *)
+      set (seg := firstn n restq) in *. set (word := trim seg) in *.
+      assert (Hwseg : wok seg) by (apply wok_firstn; auto).
+      assert (Hwword : wok word) by (apply wok_trim; auto).
+      pose proof (firstn_skipn_sumw n restq) as Hsum. fold seg in Hsum.
+      pose proof (sumw_trim_le is_space seg Hwseg) as Hle. fold word in Hle.
+      pose proof (sumw_nonneg _ (wok_skipn n _ Hwq')) as Hn3.
+      destruct (split_long_spec W ltac:(lia) word (sumw pre) pre [] tk ov) as [taken [left [E1 [E2 [E3 [E4 E5]]]]]]; auto; try lia.
+      exists (pre ++ taken). cbn [app] in E3. subst ov tk.
+      split; [|split; [|split]].
+      + rewrite Hsplit, <- app_assoc. f_equal.
+        rewrite <- (firstn_skipn n restq) at 1. fold seg. rewrite (trim_skipn is_space seg) at 1. fold word.
+        rewrite E1, <- !app_assoc. reflexivity.
+      + destruct pre; [|discriminate]. cbn [app]. apply E5; auto.
+        intros Hc0. rewrite Hc0 in H1. cbn in H1. lia.
+      + apply kept_refl.
+      + destruct E4 as [E4|E4]; [|apply fits_of_len; auto].
+        apply fits_of_sum; auto. apply wok_app. split; auto.
+        rewrite E1 in Hwword. apply wok_app in Hwword. tauto.
+    - (* the next word does not fit *)
+      exists pre. split; [auto|]. split; [|split].
+      + intros ->. cbn in H2. lia.
+      + apply kept_refl.
+      + apply fits_of_sum; auto.
+    - (* hard break *)
+      set (seg := firstn n restq) in *.
+      destruct (Hseg _ _ _ _ _ Hq Hs) as [Hn _].
+      destruct (strip_shape seg (Hgseg n)) as [sp [sp' [Hs1 [Hs2 [Hsp [Hsp' [Hwsp Hwsp']]]]]]].
+      exists (pre ++ seg). split; [|split; [|split]].
+      + rewrite Hsplit, <- app_assoc. f_equal. symmetry. apply firstn_skipn.
+      + intros Hc0. apply app_eq_nil in Hc0. destruct Hc0 as [_ Hc0].
+        apply (f_equal (@length cell)) in Hc0. unfold seg in Hc0. rewrite firstn_length in Hc0. cbn in Hc0. lia.
+      + apply kept_app; [apply kept_refl|]. rewrite Hs2. rewrite Hs1 at 2.
+        apply kept_app; [apply kept_refl|apply kept_spaces; auto].
+      + rewrite Hs2. unfold fits. rewrite app_assoc, trim_app_space by auto.
+        assert (Hwseg : wok seg) by (apply wok_firstn; auto).
+        apply fits_of_sum.
+        * apply wok_app. split; auto. apply wok_trim; auto.
+        * rewrite sumw_app. lia.
+    - (* the trailing space does not fit *)
+      set (seg := firstn n restq) in *.
+      destruct (Hseg _ _ _ _ _ Hq Hs) as [Hn _].
+      exists (pre ++ seg). split; [|split; [|split]].
+      + rewrite Hsplit, <- app_assoc. f_equal. symmetry. apply firstn_skipn.
+      + intros Hc0. apply app_eq_nil in Hc0. destruct Hc0 as [_ Hc0].
+        apply (f_equal (@length cell)) in Hc0. unfold seg in Hc0. rewrite firstn_length in Hc0. cbn in Hc0. lia.
+      + apply kept_app; [apply kept_refl|]. rewrite (trim_skipn is_space seg) at 2.
+        rewrite <- (app_nil_r (trim seg)) at 1.
+        apply kept_app; [apply kept_refl|apply kept_spaces; [constructor|]].
+        apply good_spaces; [|apply trim_skipn_space].
+        pose proof (Hgseg n) as Hg. fold seg in Hg. rewrite (trim_skipn is_space seg) in Hg.
+        apply Forall_app in Hg. tauto.
+      + assert (Hwseg : wok seg) by (apply wok_firstn; auto).
+        apply fits_of_sum.
+        * apply wok_app. split; auto. apply wok_trim; auto.
+        * rewrite sumw_app. lia.
+  Qed.
+End GenericSpec.
+
+Lemma skipn_add {A} a b (l : list A) : skipn (a + b) l = skipn b (skipn a l).
+Proof.
+  revert l. induction a as [|a IH]; intros l; [reflexivity|].
+  destruct l as [|x l]; cbn [Nat.add skipn]; [now rewrite skipn_nil|apply IH].
+Qed.
+
+Lemma skipn_split {A} (input : list A) p consumed rest' :
+  skipn p input = consumed ++ rest' -> consumed <> [] ->
+  (p < length input)%nat /\ rest' = skipn (p + length consumed) input /\
+  sub input p (p + length consumed) = consumed /\ (p + length consumed + length rest' = length input)%nat.
+Proof.
+  intros H Hne.
+  assert (Hlen : (length input - p = length consumed + length rest')%nat).
+  { rewrite <- skipn_length, H, app_length. reflexivity. }
+  assert (0 < length consumed)%nat by (destruct consumed; [congruence|cbn; lia]).
+  split; [lia|]. split; [|split; [|lia]].
+  - rewrite skipn_add, H, skipn_app, skipn_all, Nat.sub_diag. reflexivity.
+  - unfold sub. rewrite H. replace (p + length consumed - p)%nat with (length consumed) by lia.
+    rewrite firstn_app, firstn_all, Nat.sub_diag. cbn. apply app_nil_r.
+Qed.
+
+Section RunSpec.
+  Variable St : Type.
+  Variable segf : St -> list cell -> option (nat * bool * St).
+  Variable reset : St -> St.
+  Variables is_space hasbreak : cell -> bool.
+  Variable residue : cell -> list cell.
+
+  Notation sscan := (scan St segf reset is_space hasbreak residue).
+  Notation sall := (scan_all St segf reset is_space hasbreak residue).
+  Notation srun := (run St segf reset is_space hasbreak residue).
+
+  Hypothesis Hseg : seg_ok St segf.
+  Variable good : cell -> Prop.
+  Variable ws : cell -> bool.
+  Hypothesis Hbrk_space : forall c, hasbreak c = true -> is_space c = true.
+  Hypothesis Hws : forall c, good c -> is_space c = true -> ws c = true.
+  Hypothesis Hres : forall c r, good c -> hasbreak c = true -> In r (residue c) ->
+                                is_space r = true /\ ws r = true.
+
+  Variable input : list cell.
+  Variable W : Z.
+  Hypothesis HW : 0 <= W < 65536.
+  Hypothesis Hwok : wok input.
+  Hypothesis Hov : sumw input < 65536.
+  Hypothesis Hgood : Forall good input.
+  Notation N := (length input).
+
+  (* a comparison that only looks at what whitespace-insensitive content *)
+  Variable same : list cell -> list cell -> bool.
+  Hypothesis Hsame : forall a b, kept ws a b -> same a b = true.
+
+  Lemma wok_suffix p : wok (skipn p input).
+  Proof. apply wok_skipn; auto. Qed.
+
+  Lemma good_suffix p : Forall good (skipn p input).
+  Proof. rewrite <- (firstn_skipn p input) in Hgood. apply Forall_app in Hgood. tauto. Qed.
+
+  Lemma sumw_suffix p : sumw (skipn p input) < 65536.
+  Proof.
+    pose proof (firstn_skipn_sumw p input). pose proof (sumw_nonneg _ (wok_firstn p _ Hwok)). lia.
+  Qed.
+
+  Lemma loop_not_stop fuel : forall W rest st w token,
+    scan_loop St segf reset is_space hasbreak residue fuel W rest st w token <> ScanStop.
+  Proof.
+    induction fuel as [|fuel IH]; intros W' rest st w token; cbn [scan_loop]; [discriminate|].
+    destruct (segf st rest) as [[[n br] st']|]; [|discriminate].
+    destruct (W' <? _); [destruct (split_long _ _ _ _ _); discriminate|].
+    destruct (W' <? _); [discriminate|].
+    destruct br; [discriminate|].
+    destruct (W' <? _); [discriminate|]. apply IH.
+  Qed.
+
+  Lemma all_spec fuel : forall p st lines o, (p <= N)%nat ->
+    sall fuel W (skipn p input) st = (lines, o) ->
+    Forall (fun x => fits is_space W (fst x)) lines /\
+    conserve_b same input N p lines = true /\
+    Forall (fun x => (snd x <= N)%nat) lines /\
+    increasing_from p (cuts_of N lines) = true /\
+    (o = Done -> W <> 0 -> last (p :: cuts_of N lines) 0%nat = N) /\
+    (o = Done -> W <> 0 -> kept ws (concat (map fst lines)) (skipn p input)).
+  Proof.
+    induction fuel as [|fuel IH]; intros p st lines o Hp H; cbn [scan_all] in H.
+    - injection H as <- <-. repeat split; auto; intros; discriminate.
+    - destruct (sscan W (skipn p input) st) as [tok rest' st'| | |] eqn:E.
+      + destruct (sall fuel W rest' st') as [ls o'] eqn:Ea. injection H as <- <-.
+        destruct (scan_spec St segf reset is_space hasbreak residue Hseg good ws Hbrk_space Hws Hres
+                    W _ _ _ _ _ HW (wok_suffix p) (sumw_suffix p) (good_suffix p) E) as [consumed [Hc [Hne [Hk Hf]]]].
+        destruct (skipn_split _ _ _ _ Hc Hne) as [Hp' [Hr [Hsub Hlen]]].
+        rewrite Hr in Ea. apply IH in Ea; [|lia].
+        destruct Ea as [F1 [F2 [F3 [F4 [F5 F6]]]]].
+        assert (Hcut : (N - length rest' = p + length consumed)%nat) by lia.
+        split; [constructor; auto|]. split; [|split; [|split; [|split]]].
+        * cbn [conserve_b]. rewrite Hcut, Hsub, F2, (Hsame _ _ Hk). reflexivity.
+        * constructor; auto. cbn [snd]. lia.
+        * cbn [cuts_of map snd increasing_from]. fold (cuts_of N ls). rewrite Hcut, F4.
+          destruct consumed; [congruence|]. cbn [length]. rewrite andb_true_r. apply Nat.ltb_lt. lia.
+        * intros Ho HW0. specialize (F5 Ho HW0). cbn [cuts_of map snd]. fold (cuts_of N ls).
+          rewrite Hcut. exact F5.
+        * intros Ho HW0. specialize (F6 Ho HW0). cbn [map fst concat]. rewrite Hc, Hr.
+          apply kept_app; auto.
+      + injection H as <- <-. split; [constructor|]. split; [reflexivity|]. split; [constructor|].
+        split; [reflexivity|].
+        assert (Hstop : W <> 0 -> skipn p input = []).
+        { intros HW0. unfold scan in E. destruct (skipn p input) eqn:Es; [reflexivity|].
+          cbn [is_nil orb] in E. destruct (W =? 0) eqn:E0; [lia|]. exfalso. exact (loop_not_stop _ _ _ _ _ _ E). }
+        split; intros _ HW0; specialize (Hstop HW0).
+        * cbn. apply (f_equal (@length cell)) in Hstop. rewrite skipn_length in Hstop. cbn in Hstop. lia.
+        * rewrite Hstop. constructor.
+      + injection H as <- <-. repeat split; auto; intros; discriminate.
+      + injection H as <- <-. repeat split; auto; intros; discriminate.
+  Qed.
+
+  Lemma run_spec st0 lines o : srun W input st0 = (lines, o) ->
+    Forall (fun x => fits is_space W (fst x)) lines /\
+    conserve_b same input N 0 lines = true /\
+    (o = Done -> W <> 0 -> kept ws (concat (map fst lines)) input) /\
+    (o = Done -> progress_b N W lines = true).
+  Proof.
+    unfold run. intros H. pose proof (all_spec (S N) 0 st0 lines o ltac:(lia) H) as [F1 [F2 [F3 [F4 [F5 F6]]]]].
+    split; [auto|]. split; [auto|]. split; [exact F6|]. intros Ho. unfold progress_b.
+    destruct ((W =? 0) || Nat.eqb N 0) eqn:E0.
+    - cbn [scan_all] in H. unfold scan in H.
+      destruct input as [|c r] eqn:Ei.
+      + cbn in H. injection H as <- <-. reflexivity.
+      + cbn [is_nil orb length Nat.eqb] in *. rewrite orb_false_r in E0. rewrite E0 in H.
+        injection H as <- <-. reflexivity.
+    - apply orb_false_iff in E0. destruct E0 as [E0 E1]. apply Nat.eqb_neq in E1.
+      specialize (F5 Ho ltac:(lia)).
+      apply andb_true_iff. split.
+      + apply forallb_forall. intros x Hx. rewrite Forall_forall in F3. apply Nat.leb_le. auto.
+      + destruct (cuts_of N lines) as [|c t] eqn:Ec.
+        * cbn in F5. lia.
+        * cbn [increasing_from] in F4. rewrite F4. cbn [andb].
+          apply Nat.eqb_eq. exact F5.
+  Qed.
+End RunSpec.
+
+Lemma skipn_app_len {A} (a b : list A) : skipn (length a) (a ++ b) = b.
+Proof. rewrite skipn_app, skipn_all, Nat.sub_diag. reflexivity. Qed.
+
+Lemma firstn_add {A} m k (l : list A) : firstn (m + k) l = firstn m l ++ firstn k (skipn m l).
+Proof.
+  revert l. induction m as [|m IH]; intros l; [reflexivity|].
+  destruct l as [|x l]; cbn [Nat.add firstn skipn app]; [now rewrite firstn_nil|]. now rewrite IH.
+Qed.
+
+Lemma sub_split {A} (l : list A) a' a e : (a' <= a <= e)%nat -> sub l a' e = sub l a' a ++ sub l a e.
+Proof.
+  intros H. unfold sub. replace (e - a')%nat with ((a - a') + (e - a))%nat by lia.
+  rewrite firstn_add. f_equal. rewrite <- skipn_add. replace (a' + (a - a'))%nat with a by lia. reflexivity.
+Qed.
+
+Lemma sub_firstn_skipn {A} (l : list A) a n : sub l a (a + n) = firstn n (skipn a l).
+Proof. unfold sub. replace (a + n - a)%nat with n by lia. reflexivity. Qed.
+
+Lemma prev_break_le B a : forall k, (forall q, (a < q <= k)%nat -> B q = false) -> (prev_break B k <= a)%nat.
+Proof.
+  induction k as [|k IH]; intros H; cbn [prev_break]; [lia|].
+  destruct (B (S k)) eqn:E.
+  - destruct (Nat.le_gt_cases (S k) a); [auto|]. rewrite H in E by lia. discriminate.
+  - apply IH. intros q Hq. apply H. lia.
+Qed.
+
+Lemma next_break_fuel_eq B N e : (e <= N)%nat -> (e = N \/ B e = true) ->
+  forall fuel c, (c <= e)%nat -> (e - c < fuel)%nat -> (forall q, (c <= q < e)%nat -> B q = false) ->
+  next_break_fuel B N fuel c = e.
+Proof.
+  intros HeN He. induction fuel as [|fuel IH]; intros c Hc Hf Hq; [lia|].
+  cbn [next_break_fuel]. destruct (Nat.leb N c) eqn:E1.
+  - apply Nat.leb_le in E1. lia.
+  - apply Nat.leb_gt in E1. destruct (Nat.eq_dec c e) as [->|Hne].
+    + destruct He as [-> | ->]; [lia|reflexivity].
+    + rewrite Hq by lia. apply IH; [lia|lia|]. intros q Hq'. apply Hq. lia.
+Qed.
+
+Lemma next_break_eq B N c e : (c <= e <= N)%nat -> (e = N \/ B e = true) ->
+  (forall q, (c <= q < e)%nat -> B q = false) -> next_break B N c = e.
+Proof. intros H He Hq. unfold next_break. apply next_break_fuel_eq; auto; lia. Qed.
+
+Section Positional.
+  Variable St : Type.
+  Variable segf : St -> list cell -> option (nat * bool * St).
+  Variable reset : St -> St.
+  Variables is_space hasbreak : cell -> bool.
+  Variable residue : cell -> list cell.
+
+  Notation trim := (trim_right is_space).
+  Notation sscan := (scan St segf reset is_space hasbreak residue).
+  Notation sall := (scan_all St segf reset is_space hasbreak residue).
+  Notation srun := (run St segf reset is_space hasbreak residue).
+  Notation chain := (chain St segf is_space).
+  Notation final := (final St segf reset is_space hasbreak residue).
+
+  Hypothesis Hseg : seg_ok St segf.
+  Variable good : cell -> Prop.
+  Variable ws : cell -> bool.
+  Hypothesis Hbrk_space : forall c, hasbreak c = true -> is_space c = true.
+  Hypothesis Hws : forall c, good c -> is_space c = true -> ws c = true.
+  Hypothesis Hres : forall c r, good c -> hasbreak c = true -> In r (residue c) ->
+                                is_space r = true /\ ws r = true.
+
+  Variable input : list cell.
+  Variable W : Z.
+  Hypothesis HW : 0 <= W < 65536.
+  Hypothesis Hwok : wok input.
+  Hypothesis Hov : sumw input < 65536.
+  Hypothesis Hgood : Forall good input.
+  Notation N := (length input).
+
+  (* break opportunities B, mandatory breaks Hd, and the oracle states that may occur at a position *)
+  Variables B Hd : nat -> bool.
+  Variable valid : St -> nat -> Prop.
+  Definition consistent : Prop :=
+    forall st p n br st', valid st p -> (p < N)%nat -> segf st (skipn p input) = Some (n, br, st') ->
+      valid st' (p + n) /\ ((p + n)%nat = N \/ B (p + n) = true) /\
+      (forall q, (p < q < p + n)%nat -> B q = false) /\
+      (br = true <-> ((p + n)%nat = N \/ Hd (p + n) = true)).
+  Hypothesis Hcons : consistent.
+  Hypothesis Hreset : forall st p q, valid st p -> valid (reset st) q.
+  Hypothesis HdB : forall e, (e < N)%nat -> Hd e = true -> B e = true.
+
+  Definition cut_ok (c : nat) : Prop :=
+    c = N \/ B c = true \/
+    exists a n, (a < c < a + n)%nat /\ (a + n <= N)%nat /\ (forall q, (a < q < a + n)%nat -> B q = false) /\
+                ((a + n)%nat = N \/ B (a + n) = true) /\ W < sumw (trim (sub input a (a + n))).
+
+  Lemma skipn_nonnil_lt p : skipn p input <> [] -> (p < N)%nat.
+  Proof.
+    intros H. destruct (Nat.le_gt_cases N p); [|auto]. exfalso. apply H. apply skipn_all2. lia.
+  Qed.
+
+  Lemma chain_pos w st rest stq pre restq : chain W st rest w stq pre restq ->
+    forall p, rest = skipn p input -> valid st p -> (p <= N)%nat ->
+    restq = skipn (p + length pre) input /\ valid stq (p + length pre) /\ (p + length pre <= N)%nat /\
+    (pre <> [] -> B (p + length pre) = true \/ (p + length pre)%nat = N) /\
+    (forall e, (p < e <= p + length pre)%nat -> Hd e = false).
+  Proof.
+    induction 1 as [st rest w | st rest w n st1 stq pre restq Hne Hs H1 H2 Hc IH]; intros p Hr Hv Hp.
+    - cbn [length]. rewrite Nat.add_0_r. split; [exact Hr|]. split; [exact Hv|]. split; [exact Hp|].
+      split; [intros Hc; congruence|intros e He; lia].
+    - assert (HpN : (p < N)%nat) by (apply skipn_nonnil_lt; congruence).
+      destruct (Hseg _ _ _ _ _ Hne Hs) as [Hn _].
+      assert (Hlr : length rest = (N - p)%nat) by (rewrite Hr; apply skipn_length).
+      rewrite Hr in Hs. destruct (Hcons _ _ _ _ _ Hv HpN Hs) as [Hv1 [HB [Hin Hbr]]].
+      assert (HnN : (p + n)%nat <> N /\ Hd (p + n) = false).
+      { split; [intros Hc0|destruct (Hd (p + n)) eqn:Ed; auto]; exfalso;
+          assert (false = true) by (apply Hbr; auto); discriminate. }
+      destruct (IH (p + n)%nat) as [I1 [I2 [I3 [I4 I5]]]]; auto.
+      { rewrite Hr. symmetry. apply skipn_add. }
+      { lia. }
+      rewrite app_length, firstn_length. replace (Nat.min n (length rest)) with n by lia.
+      rewrite Nat.add_assoc. split; [auto|]. split; [auto|]. split; [auto|]. split.
+      + intros _. destruct pre as [|x pre]; [|apply I4; discriminate].
+        cbn [length]. rewrite Nat.add_0_r. destruct HB; auto.
+      + intros e He. destruct (Nat.lt_trichotomy e (p + n)) as [Hl|[->|Hg]].
+        * destruct (Hd e) eqn:Ed; auto. apply HdB in Ed; [|lia]. rewrite Hin in Ed by lia. discriminate.
+        * tauto.
+        * apply I5. lia.
+  Qed.
+
+  Lemma suffix_eq c c' : (c <= N)%nat -> (c' <= N)%nat -> skipn c input = skipn c' input -> c = c'.
+  Proof.
+    intros H1 H2 H. apply (f_equal (@length cell)) in H. rewrite !skipn_length in H. lia.
+  Qed.
+
+  Lemma scan_pos p st tok rest' st' : valid st p -> (p <= N)%nat ->
+    sscan W (skipn p input) st = ScanLine tok rest' st' ->
+    exists c, (p < c <= N)%nat /\ rest' = skipn c input /\ valid st' c /\ cut_ok c /\
+              (forall e, (p < e <= c)%nat -> Hd e = true -> e = c).
+  Proof.
+    intros Hv Hp H.
+    assert (Hwk : wok (skipn p input)) by (apply wok_skipn; auto).
+    assert (Hsm : sumw (skipn p input) < 65536).
+    { pose proof (firstn_skipn_sumw p input). pose proof (sumw_nonneg _ (wok_firstn p _ Hwok)). lia. }
+    assert (Hgd : Forall good (skipn p input)).
+    { rewrite <- (firstn_skipn p input) in Hgood. apply Forall_app in Hgood. tauto. }
+    destruct (scan_spec St segf reset is_space hasbreak residue Hseg good ws Hbrk_space Hws Hres
+                W _ _ _ _ _ HW Hwk Hsm Hgd H) as [consumed [Hc0 [Hne0 _]]].
+    destruct (skipn_split _ _ _ _ Hc0 Hne0) as [HpN [Hr0 [_ Hlen0]]].
+    assert (HcN : (p < p + length consumed <= N)%nat) by (destruct consumed; [congruence|cbn [length] in *; lia]).
+    set (c := (p + length consumed)%nat) in *.
+    (* the explanation of this Scan *)
+    unfold scan in H. destruct (skipn p input) as [|c0 r0] eqn:Erest; [discriminate|].
+    rewrite <- Erest in *. assert (Hne : skipn p input <> []) by (rewrite Erest; discriminate).
+    replace (is_nil (skipn p input)) with false in H by (rewrite Erest; reflexivity). cbn [orb] in H.
+    destruct (W =? 0) eqn:EW; [discriminate|].
+    apply loop_explained in H; auto; try lia.
+    destruct H as [stq [pre [restq [Hc [Hq Hf]]]]]. cbn [app] in Hf. rewrite Z.add_0_l in Hf.
+    destruct (chain_pos _ _ _ _ _ _ Hc p eq_refl Hv Hp) as [Hrq [Hvq [HpqN [HBq Hdq]]]].
+    set (pq := (p + length pre)%nat) in *.
+    assert (HpqN' : (pq < N)%nat) by (apply skipn_nonnil_lt; congruence).
+    pose proof (chain_width _ _ _ _ _ _ _ _ _ _ Hc ltac:(lia)) as Hwq. rewrite Z.add_0_l in Hwq.
+    pose proof (chain_split _ _ _ _ _ _ _ _ _ _ Hc) as Hsplit.
+    assert (Hwpre : wok pre) by (rewrite Hsplit in Hwk; apply wok_app in Hwk; tauto).
+    assert (Hwq' : wok restq) by (rewrite Hsplit in Hwk; apply wok_app in Hwk; tauto).
+    pose proof (sumw_nonneg _ Hwpre) as Hn0.
+    assert (Hsumq : sumw pre + sumw restq < 65536) by (rewrite <- sumw_app, <- Hsplit; lia).
+    (* whatever the last event, if rest' = skipn c' input then c' = c *)
+    assert (Hcc : forall c', (c' <= N)%nat -> rest' = skipn c' input -> c' = c).
+    { intros c' Hc' Hr'. apply suffix_eq; auto; [lia|]. congruence. }
+    assert (Hpre : (p < pq)%nat -> B pq = true).
+    { intros Hl. destruct HBq as [|]; auto; [|lia]. intros ->. unfold pq in Hl. cbn in Hl. lia. }
+    assert (Hquery : forall n br stn, segf stq restq = Some (n, br, stn) ->
+              (0 < n)%nat /\ (pq + n <= N)%nat /\ valid stn (pq + n) /\ ((pq + n)%nat = N \/ B (pq + n) = true) /\
+              (forall q, (pq < q < pq + n)%nat -> B q = false) /\ skipn n restq = skipn (pq + n) input /\
+              firstn n restq = sub input pq (pq + n)).
+    { intros n br stn Hs. destruct (Hseg _ _ _ _ _ Hq Hs) as [Hn _].
+      assert (Hlq : length restq = (N - pq)%nat) by (rewrite Hrq; apply skipn_length).
+      rewrite Hrq in Hs. destruct (Hcons _ _ _ _ _ Hvq HpqN' Hs) as [Hv1 [HB1 [Hin _]]].
+      repeat split; auto; try lia.
+      - rewrite Hrq. symmetry. apply skipn_add.
+      - rewrite sub_firstn_skipn, Hrq. reflexivity. }
+    assert (Hhard : forall n br stn c', segf stq restq = Some (n, br, stn) -> (c' <= pq + n)%nat ->
+              forall e, (p < e <= c')%nat -> Hd e = true -> e = c').
+    { intros n br stn c' Hs Hc' e He Hde. destruct (Hquery _ _ _ Hs) as [_ [HnN [_ [_ [Hin _]]]]].
+      destruct (Nat.le_gt_cases e pq) as [Hle|Hgt]; [rewrite Hdq in Hde by lia; discriminate|].
+      destruct (Nat.eq_dec e c'); auto. apply HdB in Hde; [|lia]. rewrite Hin in Hde by lia. discriminate. }
+    exists c. split; [auto|]. split; [exact Hr0|].
+    inversion Hf as [n br stn tk ov Hs H1 H2 | n br stn Hs H1 H2 | n stn Hs H1 H2 | n stn Hs H1 H2 H3];
+      clear Hf; subst tok st';
+      match goal with Heq : _ = rest' |- _ => rename Heq into Hrest; symmetry in Hrest end.
+    - (* long word *)
+      destruct (Hquery _ _ _ Hs) as [Hn [HnN [Hvn [HBn [Hin [Hsk Hfn]]]]]].
+      set (seg := firstn n restq) in *. set (word := trim seg) in *.
+      assert (Hwseg : wok seg) by (apply wok_firstn; auto).
+      assert (Hwword : wok word) by (apply wok_trim; auto).
+      pose proof (firstn_skipn_sumw n restq) as Hsum. fold seg in Hsum.
+      pose proof (sumw_trim_le is_space seg Hwseg) as Hle. fold word in Hle.
+      pose proof (sumw_nonneg _ (wok_skipn n _ Hwq')) as Hn3.
+      destruct (split_long_spec W ltac:(lia) word (sumw pre) pre [] tk ov) as [taken [left [E1 [E2 [E3 [E4 E5]]]]]]; auto; try lia.
+      cbn [app] in E3. subst ov.
+      assert (Hlenw : (length taken <= n)%nat).
+      { pose proof (trim_length_le is_space seg) as Hl. fold word in Hl. rewrite E1, app_length in Hl.
+        unfold seg in Hl. rewrite firstn_length in Hl. lia. }
+      set (trsp := skipn (length word) seg) in *.
+      assert (H_a : restq = seg ++ skipn n restq) by (symmetry; apply firstn_skipn).
+      assert (H_b : seg = word ++ trsp) by (apply trim_skipn).
+      assert (H_c : restq = taken ++ (left ++ trsp ++ skipn n restq)).
+      { rewrite H_a at 1. rewrite H_b, E1, <- !app_assoc. reflexivity. }
+      assert (Hr' : rest' = skipn (pq + length taken) input).
+      { rewrite skipn_add, <- Hrq, Hrest.
+        transitivity (skipn (length taken) (taken ++ (left ++ trsp ++ skipn n restq))).
+        - rewrite skipn_app, skipn_all, Nat.sub_diag. reflexivity.
+        - rewrite <- H_c. reflexivity. }
+      apply Hcc in Hr'; [|lia]. split; [rewrite <- Hr'; eapply Hreset; eauto|]. split.
+      + destruct (Nat.eq_dec (length taken) 0) as [E0|E0].
+        { right. left. rewrite <- Hr', E0, Nat.add_0_r. apply Hpre. lia. }
+        destruct (Nat.eq_dec (length taken) n) as [En|En].
+        { rewrite <- Hr', En. destruct HBn; [left|right; left]; auto. }
+        right. right. exists pq, n. rewrite <- Hfn. fold seg word.
+        split; [lia|]. split; [lia|]. split; [auto|]. split; [auto|lia].
+      + rewrite <- Hr'. eapply Hhard; eauto. lia.
+    - (* the next word does not fit *)
+      rewrite Hrest in Hcc. apply Hcc in Hrq; [|lia]. rewrite <- Hrq. split; [auto|]. split.
+      + right. left. apply Hpre. lia.
+      + intros e He Hde. rewrite Hdq in Hde by lia. discriminate.
+    - (* hard break *)
+      destruct (Hquery _ _ _ Hs) as [Hn [HnN [Hvn [HBn [Hin [Hsk Hfn]]]]]].
+      rewrite Hrest in Hcc. apply Hcc in Hsk; [|lia]. rewrite <- Hsk. split; [auto|]. split.
+      + destruct HBn; [left|right; left]; auto.
+      + eapply Hhard; eauto.
+    - (* the trailing space does not fit *)
+      destruct (Hquery _ _ _ Hs) as [Hn [HnN [Hvn [HBn [Hin [Hsk Hfn]]]]]].
+      rewrite Hrest in Hcc. apply Hcc in Hsk; [|lia]. rewrite <- Hsk. split; [auto|]. split.
+      + destruct HBn; [left|right; left]; auto.
+      + eapply Hhard; eauto.
+  Qed.
+
+  Lemma all_pos fuel : forall p st lines o, valid st p -> (p <= N)%nat ->
+    sall fuel W (skipn p input) st = (lines, o) ->
+    Forall cut_ok (cuts_of N lines) /\
+    (o = Done -> W <> 0 -> forall e, (p < e <= N)%nat -> Hd e = true -> In e (cuts_of N lines)).
+  Proof.
+    induction fuel as [|fuel IH]; intros p st lines o Hv Hp H; cbn [scan_all] in H.
+    - injection H as <- <-. split; [constructor|intros; discriminate].
+    - destruct (sscan W (skipn p input) st) as [tok rest' st'| | |] eqn:E.
+      + destruct (sall fuel W rest' st') as [ls o'] eqn:Ea. injection H as <- <-.
+        destruct (scan_pos _ _ _ _ _ Hv Hp E) as [c [Hc [Hr [Hvc [Hok Hhd]]]]].
+        rewrite Hr in Ea. apply IH in Ea; auto; [|lia]. destruct Ea as [F1 F2].
+        assert (Hcut : (N - length rest' = c)%nat) by (rewrite Hr, skipn_length; lia).
+        cbn [cuts_of map snd]. fold (cuts_of N ls). rewrite Hcut. split; [constructor; auto|].
+        intros Ho HW0 e He Hde. destruct (Nat.le_gt_cases e c) as [Hle|Hgt].
+        * left. symmetry. apply Hhd; auto. lia.
+        * right. apply F2; auto. lia.
+      + injection H as <- <-. split; [constructor|]. intros _ HW0 e He _. exfalso.
+        unfold scan in E. destruct (skipn p input) eqn:Es.
+        * apply (f_equal (@length cell)) in Es. rewrite skipn_length in Es. cbn in Es. lia.
+        * cbn [is_nil orb] in E. destruct (W =? 0) eqn:E0; [lia|].
+          exact (loop_not_stop _ _ _ _ _ _ _ _ _ _ _ _ E).
+      + injection H as <- <-. split; [constructor|intros; discriminate].
+      + injection H as <- <-. split; [constructor|intros; discriminate].
+  Qed.
+
+  Lemma cut_ok_b c : (0 < c)%nat -> cut_ok c -> nosplit_cut_b is_space B W input c = true.
+  Proof.
+    intros Hc0 [->|[Hb|[a [n [Hac [HaN [Hin [He Hw]]]]]]]]; unfold nosplit_cut_b.
+    - rewrite Nat.eqb_refl. reflexivity.
+    - rewrite Hb. apply orb_true_iff. left. apply orb_true_r.
+    - apply orb_true_iff. right. apply Z.ltb_lt.
+      assert (Hp : (prev_break B (c - 1) <= a)%nat) by (apply prev_break_le; intros q Hq; apply Hin; lia).
+      assert (Hn : next_break B N (S c) = (a + n)%nat).
+      { apply next_break_eq; auto; [lia|]. intros q Hq. apply Hin. lia. }
+      rewrite Hn. set (a' := prev_break B (c - 1)) in *.
+      rewrite (sub_split input a' a (a + n)) by lia.
+      assert (Hne : trim (sub input a (a + n)) <> []) by (intros E; rewrite E in Hw; cbn in Hw; lia).
+      rewrite trim_app_nonempty by auto. rewrite sumw_app.
+      assert (wok (sub input a' a)) by (unfold sub; apply wok_firstn, wok_skipn; auto).
+      pose proof (sumw_nonneg _ H). lia.
+  Qed.
+
+  Lemma run_pos st0 lines o : valid st0 0 -> srun W input st0 = (lines, o) ->
+    nosplit_b is_space B W input lines = true /\
+    (o = Done -> W <> 0 -> hardbreak_b Hd N lines = true).
+  Proof.
+    intros Hv H. unfold run in H.
+    pose proof (all_spec St segf reset is_space hasbreak residue Hseg good ws Hbrk_space Hws Hres input W HW Hwok Hov Hgood
+                  (fun _ _ => true) (fun _ _ _ => eq_refl) (S N) 0 st0 lines o ltac:(lia) H) as [_ [_ [_ [Hinc _]]]].
+    destruct (all_pos (S N) 0 st0 lines o Hv ltac:(lia) H) as [F1 F2]. split.
+    - unfold nosplit_b. apply forallb_forall. intros c Hc. rewrite Forall_forall in F1.
+      apply cut_ok_b; auto.
+      (* cuts are positive *)
+      assert (Hpos : forall l a x, increasing_from a l = true -> In x l -> (a < x)%nat).
+      { induction l as [|y t IHt]; intros a x Hi Hx; [destruct Hx|].
+        cbn [increasing_from] in Hi. apply andb_true_iff in Hi. destruct Hi as [H1 H2]. apply Nat.ltb_lt in H1.
+        destruct Hx as [->|Hx]; [lia|]. specialize (IHt _ _ H2 Hx). lia. }
+      eapply Hpos; eauto.
+    - intros Ho HW0. unfold hardbreak_b. apply forallb_forall. intros e He. apply in_seq in He.
+      destruct (Hd e) eqn:Ed; [|reflexivity]. cbn [negb orb]. apply existsb_exists. exists e.
+      split; [|apply Nat.eqb_refl]. apply F2; auto. lia.
+  Qed.
+End Positional.
+
+(* ---------- everything about one run, for any scanner instance ---------- *)
+Section Combined.
+  Variable St : Type.
+  Variable segf : St -> list cell -> option (nat * bool * St).
+  Variable reset : St -> St.
+  Variables is_space hasbreak : cell -> bool.
+  Variable residue : cell -> list cell.
+  Hypothesis Hseg : seg_ok St segf.
+  Variable good : cell -> Prop.
+  Variable ws : cell -> bool.
+  Hypothesis Hbrk_space : forall c, hasbreak c = true -> is_space c = true.
+  Hypothesis Hws : forall c, good c -> is_space c = true -> ws c = true.
+  Hypothesis Hres : forall c r, good c -> hasbreak c = true -> In r (residue c) ->
+                                is_space r = true /\ ws r = true.
+  Variable input : list cell.
+  Variable W : Z.
+  Hypothesis HW : 0 <= W < 65536.
+  Hypothesis Hwok : wok input.
+  Hypothesis Hov : sumw input < 65536.
+  Hypothesis Hgood : Forall good input.
+  Notation N := (length input).
+  Variable same : list cell -> list cell -> bool.
+  Hypothesis Hsame : forall a b, kept ws a b -> same a b = true.
+  Variables B Hd : nat -> bool.
+  Variable valid : St -> nat -> Prop.
+  Hypothesis Hcons : consistent St segf input B Hd valid.
+  Hypothesis Hreset : forall st p q, valid st p -> valid (reset st) q.
+  Hypothesis HdB : forall e, (e < N)%nat -> Hd e = true -> B e = true.
+
+  Theorem run_ok st0 lines : valid st0 0 ->
+    run St segf reset is_space hasbreak residue W input st0 = (lines, Done) ->
+    c16_ok_b is_space same B Hd W input lines = true.
+  Proof.
+    intros Hv H.
+    destruct (run_spec St segf reset is_space hasbreak residue Hseg good ws Hbrk_space Hws Hres
+                input W HW Hwok Hov Hgood same Hsame st0 lines Done H) as [F1 [F2 [_ F3]]].
+    destruct (run_pos St segf reset is_space hasbreak residue Hseg good ws Hbrk_space Hws Hres
+                input W HW Hwok Hov Hgood B Hd valid Hcons Hreset HdB st0 lines Done Hv H) as [F4 F5].
+    unfold c16_ok_b. rewrite (F3 eq_refl), F2, F4. cbn [andb].
+    replace (forallb (fun x => fits_b is_space W (fst x)) lines) with true.
+    - cbn [andb]. destruct (W =? 0) eqn:E; [reflexivity|]. rewrite F5; auto. lia.
+    - symmetry. apply forallb_forall. intros x Hx. rewrite Forall_forall in F1. apply fits_b_iff. auto.
+  Qed.
+End Combined.
+
+(* ---------- comparisons used by the observation predicate ---------- *)
+Lemma zlist_eqb_refl l : zlist_eqb l l = true.
+Proof. unfold zlist_eqb. induction l as [|x l IH]; cbn; [reflexivity|]. rewrite Z.eqb_refl, IH. reflexivity. Qed.
+
+Lemma cell_eqb_refl c : cell_eqb c c = true.
+Proof. unfold cell_eqb. rewrite zlist_eqb_refl, !Z.eqb_refl. reflexivity. Qed.
+
+Lemma cells_eqb_refl l : list_eqb cell_eqb l l = true.
+Proof. induction l as [|x l IH]; cbn; [reflexivity|]. rewrite cell_eqb_refl, IH. reflexivity. Qed.
+
+Lemma same_cells_kept is_space a b : kept is_space a b -> same_cells is_space a b = true.
+Proof. intros H. unfold same_cells. rewrite (kept_nonspace _ _ _ H). apply cells_eqb_refl. Qed.
+
+Lemma nonspace_runes_flat l :
+  nonspace_runes l = flat_map (fun c => filter (fun r => negb (go_isspace r)) (c_runes c)) l.
+Proof.
+  unfold nonspace_runes, flat. induction l as [|c l IH]; [reflexivity|].
+  cbn [map concat flat_map]. rewrite filter_app, IH. reflexivity.
+Qed.
+
+Lemma same_runes_kept a b : kept ws_runes a b -> same_runes a b = true.
+Proof.
+  intros H. unfold same_runes. rewrite !nonspace_runes_flat.
+  rewrite (kept_content ws_runes _ a b); [apply zlist_eqb_refl| |exact H].
+  intros c Hc. unfold ws_runes in Hc. induction (c_runes c) as [|r t IH]; [reflexivity|].
+  cbn in *. apply andb_true_iff in Hc. destruct Hc as [H1 H2]. rewrite H1. cbn. auto.
+Qed.
+
+Lemma isbrk_isspace c : cell_hasbreak c = true -> cell_is_space c = true.
+Proof. unfold cell_hasbreak, cell_is_space, uniseg_isbrk, go_isspace, in_range. lia. Qed.
+
+(* ---------- text.go ---------- *)
+Section Plain.
+  Variable orc : Z -> Z -> option (Z * bool * Z).
+  Variable input : list cell.
+  Notation N := (length input).
+  Variables B Hd : nat -> bool.
+
+  (* the oracle states the scanner can be in at a position: -1 anywhere (start of the text, and
+     after a long word was broken), or the state returned for the segment that ends there *)
+  Inductive pvalid : Z -> nat -> Prop :=
+  | pv_reset p : pvalid (-1) p
+  | pv_step st p n br st' : pvalid st p -> orc (Z.of_nat p) st = Some (Z.of_nat n, br, st') ->
+                            pvalid st' (p + n).
+
+  (* the answers of the oracle in those states agree with one set of break opportunities B and
+     one set of mandatory breaks Hd *)
+  Definition orc_consistent : Prop :=
+    forall st p n br st', pvalid st p -> (p < N)%nat -> orc (Z.of_nat p) st = Some (Z.of_nat n, br, st') ->
+      (0 < n)%nat -> (p + n <= N)%nat ->
+      ((p + n)%nat = N \/ B (p + n) = true) /\ (forall q, (p < q < p + n)%nat -> B q = false) /\
+      (br = true <-> ((p + n)%nat = N \/ Hd (p + n) = true)).
+
+  Lemma plain_consistent : orc_consistent -> consistent Z (plain_segf N orc) input B Hd pvalid.
+  Proof.
+    intros Hc st p n br st' Hv Hp Hs. unfold plain_segf in Hs.
+    assert (Hl : length (skipn p input) = (N - p)%nat) by apply skipn_length.
+    destruct (skipn p input) as [|c r] eqn:Er; [cbn in Hl; lia|]. rewrite <- Er in *.
+    replace (N - length (skipn p input))%nat with p in Hs by lia.
+    destruct (orc (Z.of_nat p) st) as [[[m b] s]|] eqn:E; [|discriminate].
+    destruct ((0 <? m) && (m <=? zlen (skipn p input))) eqn:Ev; [|discriminate].
+    injection Hs as <- <- <-. unfold zlen in Ev.
+    assert (Hm : m = Z.of_nat (Z.to_nat m)) by lia. rewrite Hm in E.
+    split; [eapply pv_step; eauto|]. eapply Hc; eauto; lia.
+  Qed.
+End Plain.
+
+Theorem plain_run_ok orc input B Hd W lines :
+  orc_end_ok (length input) orc -> 0 <= W < 65536 -> wok input -> sumw input < 65536 ->
+  forallb plain_cell_ok input = true ->
+  orc_consistent orc input B Hd ->
+  (forall e, (e < length input)%nat -> Hd e = true -> B e = true) ->
+  run Z (plain_segf (length input) orc) plain_reset cell_is_space cell_hasbreak plain_residue W input (-1) = (lines, Done) ->
+  c16_ok_b cell_is_space same_runes B Hd W input lines = true.
+Proof.
+  intros Hend HW Hwok Hov Hcells Hc HdB H.
+  eapply (run_ok Z (plain_segf (length input) orc) plain_reset cell_is_space cell_hasbreak plain_residue
+            (plain_seg_ok _ _ Hend) (fun c => plain_cell_ok c = true) ws_runes); eauto.
+  - apply isbrk_isspace.
+  - intros c Hg Hs. unfold plain_cell_ok in Hg. rewrite Hs in Hg. cbn in Hg. apply andb_true_iff in Hg. tauto.
+  - intros c r Hg Hb Hr. unfold plain_cell_ok in Hg. rewrite Hb in Hg. cbn [negb orb] in Hg.
+    apply andb_true_iff in Hg. destruct Hg as [_ Hg]. rewrite forallb_forall in Hg.
+    apply Hg in Hr. apply andb_true_iff in Hr. exact Hr.
+  - apply Forall_forall. rewrite forallb_forall in Hcells. exact Hcells.
+  - apply same_runes_kept.
+  - apply plain_consistent. exact Hc.
+  - intros st p q _. constructor.
+  - constructor.
+Qed.
+
+(* ---------- richtext.go ---------- *)
+Lemma skipn_cons_nth {A} (l : list A) : forall j c t, skipn j l = c :: t -> nth_error l j = Some c /\ skipn (S j) l = t.
+Proof.
+  induction l as [|x l IH]; intros j c t H.
+  - rewrite skipn_nil in H. discriminate.
+  - destruct j as [|j]; cbn in *; [injection H as <- <-; auto|]. apply IH; auto.
+Qed.
+
+Section Rich.
+  Variable hasbreak : cell -> bool.
+  Variable pairbrk : cell -> cell -> option bool.
+  Variable input : list cell.
+  Notation N := (length input).
+  Notation B := (rich_B hasbreak pairbrk input).
+  Notation Hd := (rich_Hd hasbreak input).
+
+  Lemma rich_B_S j c nx : nth_error input j = Some c -> nth_error input (S j) = Some nx ->
+    B (S j) = hasbreak c || (negb (hasbreak nx) && match pairbrk c nx with Some true => true | _ => false end).
+  Proof. intros H1 H2. unfold rich_B. rewrite H1, H2. reflexivity. Qed.
+
+  Lemma rich_Hd_S j c : nth_error input j = Some c -> Hd (S j) = hasbreak c.
+  Proof. intros H1. unfold rich_Hd. rewrite H1. reflexivity. Qed.
+
+  Lemma fls_go_pos p : forall cells first i n br,
+    cells = skipn (p + i) input -> cells <> [] ->
+    (first = false -> exists c, nth_error input (p + i) = Some c /\ hasbreak c = false) ->
+    fls_go hasbreak pairbrk first i cells = Some (n, br) ->
+    (p + i < p + n <= N)%nat /\ ((p + n)%nat = N \/ B (p + n) = true) /\
+    (forall q, (p + i < q < p + n)%nat -> B q = false) /\
+    (br = true <-> ((p + n)%nat = N \/ Hd (p + n) = true)).
+  Proof.
+    induction cells as [|c t IH]; intros first i n br Hcells Hne Hfirst H; [congruence|].
+    symmetry in Hcells. destruct (skipn_cons_nth _ _ _ _ Hcells) as [Hc Ht].
+    assert (Hj : (p + i < N)%nat) by (apply nth_error_Some; congruence).
+    destruct t as [|nx t'].
+    - cbn in H. injection H as <- <-.
+      assert (HN : S (p + i) = N).
+      { apply (f_equal (@length cell)) in Ht. rewrite skipn_length in Ht. cbn in Ht. lia. }
+      replace (p + S i)%nat with N by lia. repeat split; auto; try lia.
+    - rewrite fls_go_eq in H. symmetry in Ht. destruct (skipn_cons_nth _ _ _ _ (eq_sym Ht)) as [Hnx Ht'].
+      assert (Hj2 : (S (p + i) < N)%nat) by (apply nth_error_Some; congruence).
+      assert (HcF : (first && hasbreak c) = false -> hasbreak c = false).
+      { intros Hf. destruct first; [exact Hf|]. destruct (Hfirst eq_refl) as [c' [Hc' Hb]]. congruence. }
+      pose proof (rich_B_S _ _ _ Hc Hnx) as HB1. pose proof (rich_Hd_S _ _ Hc) as HD1.
+      destruct (first && hasbreak c) eqn:Ef.
+      { injection H as <- <-. apply andb_true_iff in Ef. destruct Ef as [_ Ef].
+        replace (p + S i)%nat with (S (p + i)) by lia. rewrite HB1, HD1, Ef.
+        repeat split; auto; try lia. }
+      specialize (HcF eq_refl).
+      destruct (hasbreak nx) eqn:En.
+      { injection H as <- <-. replace (p + S (S i))%nat with (S (S (p + i))) by lia.
+        pose proof (rich_Hd_S _ _ Hnx) as HD2. rewrite HD2, En.
+        split; [lia|]. split; [|split; [|tauto]].
+        - destruct (nth_error input (S (S (p + i)))) as [z|] eqn:Ez.
+          + right. rewrite (rich_B_S _ _ _ Hnx Ez), En. reflexivity.
+          + left. apply nth_error_None in Ez. lia.
+        - intros q Hq. replace q with (S (p + i)) by lia. rewrite HB1, HcF. reflexivity. }
+      destruct (pairbrk c nx) as [[|]|] eqn:Ep; [| |discriminate].
+      + injection H as <- <-. replace (p + S i)%nat with (S (p + i)) by lia.
+        rewrite HB1, HD1, HcF. cbn.
+        split; [lia|]. split; [auto|]. split; [intros q Hq; lia|]. split; [discriminate|].
+        intros [Hc0|Hc0]; [lia|discriminate].
+      + apply IH in H; auto.
+        * replace (p + S i)%nat with (S (p + i)) in H by lia.
+          destruct H as [H1 [H2 [H3 H4]]]. split; [lia|]. split; [auto|]. split; [|auto].
+          intros q Hq. destruct (Nat.eq_dec q (S (p + i))) as [->|Hneq]; [|apply H3; lia].
+          rewrite HB1, HcF. reflexivity.
+        * replace (p + S i)%nat with (S (p + i)) by lia. auto.
+        * discriminate.
+        * intros _. exists nx. replace (p + S i)%nat with (S (p + i)) by lia. auto.
+  Qed.
+
+  Lemma rich_consistent : consistent unit (rich_segf hasbreak pairbrk) input B Hd (fun _ _ => True).
+  Proof.
+    intros st p n br st' _ Hp Hs. unfold rich_segf, first_line_segment in Hs.
+    destruct (fls_go hasbreak pairbrk true 0 (skipn p input)) as [[m b]|] eqn:E; [|discriminate].
+    injection Hs as <- <- <-. split; [exact I|].
+    apply (fls_go_pos p) in E.
+    - rewrite Nat.add_0_r in E. tauto.
+    - rewrite Nat.add_0_r. reflexivity.
+    - intros Hc. apply (f_equal (@length cell)) in Hc. rewrite skipn_length in Hc. cbn in Hc. lia.
+    - discriminate.
+  Qed.
+
+  Lemma rich_HdB e : (e < N)%nat -> Hd e = true -> B e = true.
+  Proof.
+    intros He H. destruct e as [|q]; [discriminate|]. unfold rich_Hd in H. unfold rich_B.
+    destruct (nth_error input q) as [a|] eqn:Ea; [|discriminate].
+    destruct (nth_error input (S q)) as [b|] eqn:Eb; [rewrite H; reflexivity|].
+    apply nth_error_None in Eb. lia.
+  Qed.
+End Rich.
+
+Theorem rich_run_ok pairbrk input W lines :
+  0 <= W < 65536 -> wok input -> sumw input < 65536 ->
+  run unit (rich_segf cell_hasbreak pairbrk) (fun s => s) cell_is_space cell_hasbreak rich_residue W input tt = (lines, Done) ->
+  c16_ok_b cell_is_space (same_cells cell_is_space) (rich_B cell_hasbreak pairbrk input) (rich_Hd cell_hasbreak input)
+           W input lines = true.
+Proof.
+  intros HW Hwok Hov H.
+  eapply (run_ok unit (rich_segf cell_hasbreak pairbrk) (fun s => s) cell_is_space cell_hasbreak rich_residue
+            (rich_seg_ok _ _) (fun _ => True) cell_is_space).
+  - apply isbrk_isspace.
+  - auto.
+  - intros c r _ _ [].
+  - exact HW.
+  - exact Hwok.
+  - exact Hov.
+  - apply Forall_forall. auto.
+  - apply same_cells_kept.
+  - apply rich_consistent.
+  - intros st p q Hv. exact Hv.
+  - apply rich_HdB.
+  - exact I.
+  - exact H.
+Qed.
+
+(* a cut that is not at a break opportunity: the whole segment around it has a word wider than W *)
+Lemma cut_ok_maximal is_space input W B c :
+  0 <= W -> wok input -> cut_ok is_space input W B c -> c <> length input -> B c = false ->
+  forall a e, (a < c < e)%nat -> (e <= length input)%nat -> (a = 0%nat \/ B a = true) ->
+    (e = length input \/ B e = true) -> (forall q, (a < q < e)%nat -> B q = false) ->
+    W < sumw (trim_right is_space (sub input a e)).
+Proof.
+  intros HW0 Hwok [Hc|[Hc|[a0 [n0 [Hac [HaN [Hin [He Hw]]]]]]]] HcN Hb a e Hae HeN Ha Hee Hq; [congruence|congruence|].
+  assert (Hee' : e = (a0 + n0)%nat).
+  { destruct (Nat.lt_trichotomy e (a0 + n0)) as [Hl|[->|Hg]]; auto; exfalso.
+    - destruct Hee as [->|Hee]; [lia|]. rewrite Hin in Hee by lia. discriminate.
+    - destruct He as [He|He]; [lia|]. rewrite Hq in He by lia. discriminate. }
+  assert (Ha' : (a <= a0)%nat).
+  { destruct (Nat.le_gt_cases a a0); auto. exfalso. destruct Ha as [->|Ha]; [lia|].
+    rewrite Hin in Ha by lia. discriminate. }
+  subst e. rewrite (sub_split input a a0 (a0 + n0)) by lia.
+  assert (Hne : trim_right is_space (sub input a0 (a0 + n0)) <> []) by (intros E; rewrite E in Hw; cbn in Hw; lia).
+  rewrite trim_app_nonempty by auto. rewrite sumw_app.
+  assert (H : wok (sub input a a0)) by (unfold sub; apply wok_firstn, wok_skipn; auto).
+  pose proof (sumw_nonneg _ H). lia.
+Qed.
+
+Section Readable.
+  Variable St : Type.
+  Variable segf : St -> list cell -> option (nat * bool * St).
+  Variable reset : St -> St.
+  Variables is_space hasbreak : cell -> bool.
+  Variable residue : cell -> list cell.
+  Hypothesis Hseg : seg_ok St segf.
+  Variable good : cell -> Prop.
+  Variable ws : cell -> bool.
+  Hypothesis Hbrk_space : forall c, hasbreak c = true -> is_space c = true.
+  Hypothesis Hws : forall c, good c -> is_space c = true -> ws c = true.
+  Hypothesis Hres : forall c r, good c -> hasbreak c = true -> In r (residue c) ->
+                                is_space r = true /\ ws r = true.
+  Variable input : list cell.
+  Variable W : Z.
+  Hypothesis HW : 0 <= W < 65536.
+  Hypothesis Hwok : wok input.
+  Hypothesis Hov : sumw input < 65536.
+  Hypothesis Hgood : Forall good input.
+  Notation N := (length input).
+
+  (* no hypothesis on break sets: widths and conservation *)
+  Theorem run_lines st0 lines o :
+    run St segf reset is_space hasbreak residue W input st0 = (lines, o) ->
+    (forall l r, In (l, r) lines -> fits is_space W l) /\
+    (o = Done -> W <> 0 -> kept ws (concat (map fst lines)) input).
+  Proof.
+    intros H.
+    destruct (run_spec St segf reset is_space hasbreak residue Hseg good ws Hbrk_space Hws Hres
+                input W HW Hwok Hov Hgood (fun _ _ => true) (fun _ _ _ => eq_refl) st0 lines o H) as [F1 [_ [F2 _]]].
+    split; [|exact F2]. intros l r Hin. rewrite Forall_forall in F1. apply (F1 (l, r) Hin).
+  Qed.
+
+  Variables B Hd : nat -> bool.
+  Variable valid : St -> nat -> Prop.
+  Hypothesis Hcons : consistent St segf input B Hd valid.
+  Hypothesis Hreset : forall st p q, valid st p -> valid (reset st) q.
+  Hypothesis HdB : forall e, (e < N)%nat -> Hd e = true -> B e = true.
+
+  Theorem run_cuts st0 lines o : valid st0 0 ->
+    run St segf reset is_space hasbreak residue W input st0 = (lines, o) ->
+    (forall c, In c (cuts_of N lines) -> c <> N -> B c = false ->
+       forall a e, (a < c < e)%nat -> (e <= N)%nat -> (a = 0%nat \/ B a = true) -> (e = N \/ B e = true) ->
+         (forall q, (a < q < e)%nat -> B q = false) -> W < sumw (trim_right is_space (sub input a e))) /\
+    (o = Done -> W <> 0 -> forall e, (0 < e <= N)%nat -> Hd e = true -> In e (cuts_of N lines)).
+  Proof.
+    intros Hv H. unfold run in H.
+    destruct (all_pos St segf reset is_space hasbreak residue Hseg good ws Hbrk_space Hws Hres
+                input W HW Hwok Hov Hgood B Hd valid Hcons Hreset HdB (S N) 0 st0 lines o Hv ltac:(lia) H) as [F1 F2].
+    split; [|exact F2]. intros c Hc. rewrite Forall_forall in F1. intros HcN Hb.
+    apply cut_ok_maximal; auto. lia.
+  Qed.
+
+  (* an oracle that always answers never leaves the scanner without an answer *)
+  Hypothesis Htotal : forall st rest, rest <> [] -> segf st rest <> None.
+
+  Lemma loop_no_miss fuel : forall rest st w token, rest <> [] ->
+    scan_loop St segf reset is_space hasbreak residue fuel W rest st w token <> ScanMiss.
+  Proof.
+    induction fuel as [|fuel IH]; intros rest st w token Hne; cbn [scan_loop]; [discriminate|].
+    destruct (segf st rest) as [[[n br] st']|] eqn:E; [|exfalso; eapply Htotal; eauto].
+    destruct (Hseg _ _ _ _ _ Hne E) as [Hn Hbr].
+    destruct (W <? _); [destruct (split_long _ _ _ _ _); discriminate|].
+    destruct (W <? _); [discriminate|].
+    destruct br; [discriminate|].
+    destruct (W <? _); [discriminate|]. apply IH.
+    apply skipn_nonnil. assert (n <> length rest) by (intros Hc; apply Hbr in Hc; discriminate). lia.
+  Qed.
+
+  Lemma all_done : forall fuel rest st, (length rest < fuel)%nat ->
+    snd (scan_all St segf reset is_space hasbreak residue fuel W rest st) = Done.
+  Proof.
+    induction fuel as [|fuel IH]; intros rest st Hf; [lia|]. cbn [scan_all].
+    destruct (scan St segf reset is_space hasbreak residue W rest st) as [tok rest' st'| | |] eqn:E.
+    - apply scan_shrinks in E; auto; [|lia]. specialize (IH rest' st' ltac:(lia)).
+      destruct (scan_all St segf reset is_space hasbreak residue fuel W rest' st') as [ls o]. exact IH.
+    - reflexivity.
+    - exfalso. exact (scan_no_hang St segf reset is_space hasbreak residue Hseg _ _ _ E).
+    - exfalso. unfold scan in E. destruct (is_nil rest || (W =? 0)) eqn:E0; [discriminate|].
+      eapply loop_no_miss; [|exact E]. destruct rest; discriminate.
+  Qed.
+
+  Theorem run_done st0 : snd (run St segf reset is_space hasbreak residue W input st0) = Done.
+  Proof. unfold run. apply all_done. lia. Qed.
+End Readable.
+
+(* the text the theorems speak about: non-negative cluster widths, and narrower in total than
+   65536 columns (the scanners add widths in uint16) *)
+Definition text_ok (input : list cell) (W : Z) : Prop :=
+  0 <= W < 65536 /\ wok input /\ sumw input < 65536.
+
+Definition plain_scan (orc : Z -> Z -> option (Z * bool * Z)) (W : Z) (input : list cell) :=
+  run Z (plain_segf (length input) orc) plain_reset cell_is_space cell_hasbreak plain_residue W input (-1).
+
+Definition rich_scan (pairbrk : cell -> cell -> option bool) (W : Z) (input : list cell) :=
+  run unit (rich_segf cell_hasbreak pairbrk) (fun s => s) cell_is_space cell_hasbreak rich_residue W input tt.
+
+Lemma plain_run_eq W input tbl : plain_run W input tbl = plain_scan (tbl_orc tbl) W input.
+Proof. reflexivity. Qed.
+Lemma rich_run_eq W input tbl : rich_run W input tbl = rich_scan (tbl_pairbrk tbl) W input.
+Proof. reflexivity. Qed.
+
+Section PlainReadable.
+  Variable orc : Z -> Z -> option (Z * bool * Z).
+  Variable input : list cell.
+  Variable W : Z.
+  Notation N := (length input).
+  Hypothesis Hend : orc_end_ok N orc.
+  Hypothesis Htext : text_ok input W.
+  Hypothesis Hcells : forallb plain_cell_ok input = true.
+
+  Let HW := proj1 Htext.
+  Let Hwok := proj1 (proj2 Htext).
+  Let Hov := proj2 (proj2 Htext).
+
+  Lemma plain_Hws : forall c, plain_cell_ok c = true -> cell_is_space c = true -> ws_runes c = true.
+  Proof.
+    intros c Hg Hs. unfold plain_cell_ok in Hg. rewrite Hs in Hg. cbn in Hg. apply andb_true_iff in Hg. tauto.
+  Qed.
+
+  Lemma plain_Hres : forall c r, plain_cell_ok c = true -> cell_hasbreak c = true -> In r (plain_residue c) ->
+    cell_is_space r = true /\ ws_runes r = true.
+  Proof.
+    intros c r Hg Hb Hr. unfold plain_cell_ok in Hg. rewrite Hb in Hg. cbn [negb orb] in Hg.
+    apply andb_true_iff in Hg. destruct Hg as [_ Hg]. rewrite forallb_forall in Hg.
+    apply Hg in Hr. apply andb_true_iff in Hr. exact Hr.
+  Qed.
+
+  Lemma plain_Hgood : Forall (fun c => plain_cell_ok c = true) input.
+  Proof. apply Forall_forall. rewrite forallb_forall in Hcells. exact Hcells. Qed.
+
+  Theorem plain_lines lines o : plain_scan orc W input = (lines, o) ->
+    (forall l r, In (l, r) lines -> fits cell_is_space W l) /\
+    (o = Done -> W <> 0 -> nonspace_runes (concat (map fst lines)) = nonspace_runes input).
+  Proof.
+    intros H.
+    destruct (run_lines Z (plain_segf N orc) plain_reset cell_is_space cell_hasbreak plain_residue
+                (plain_seg_ok _ _ Hend) (fun c => plain_cell_ok c = true) ws_runes isbrk_isspace plain_Hws plain_Hres
+                input W HW Hwok Hov plain_Hgood (-1) lines o H) as [F1 F2].
+    split; [exact F1|]. intros Ho HW0. specialize (F2 Ho HW0). apply same_runes_kept in F2.
+    unfold same_runes, zlist_eqb in F2.
+    revert F2. generalize (nonspace_runes (concat (map fst lines))) (nonspace_runes input).
+    induction l as [|x l IH]; intros [|y l']; cbn; intros E; try discriminate; auto.
+    apply andb_true_iff in E. destruct E as [E1 E2]. apply Z.eqb_eq in E1. f_equal; auto.
+  Qed.
+
+  Variables B Hd : nat -> bool.
+  Hypothesis Hc : orc_consistent orc input B Hd.
+  Hypothesis HdB : forall e, (e < N)%nat -> Hd e = true -> B e = true.
+
+  Theorem plain_cuts lines o : plain_scan orc W input = (lines, o) ->
+    (forall c, In c (cuts_of N lines) -> c <> N -> B c = false ->
+       forall a e, (a < c < e)%nat -> (e <= N)%nat -> (a = 0%nat \/ B a = true) -> (e = N \/ B e = true) ->
+         (forall q, (a < q < e)%nat -> B q = false) -> W < sumw (trim_right cell_is_space (sub input a e))) /\
+    (o = Done -> W <> 0 -> forall e, (0 < e <= N)%nat -> Hd e = true -> In e (cuts_of N lines)).
+  Proof.
+    intros H.
+    apply (run_cuts Z (plain_segf N orc) plain_reset cell_is_space cell_hasbreak plain_residue
+             (plain_seg_ok _ _ Hend) (fun c => plain_cell_ok c = true) ws_runes isbrk_isspace plain_Hws plain_Hres
+             input W HW Hwok Hov plain_Hgood B Hd (pvalid orc) (plain_consistent _ _ _ _ Hc)
+             (fun st p q _ => pv_reset orc q) HdB (-1) lines o (pv_reset orc 0) H).
+  Qed.
+
+  (* an oracle that answers every in-range query with an in-range length *)
+  Definition orc_total : Prop := forall i st, 0 <= i < Z.of_nat N ->
+    exists n br st', orc i st = Some (n, br, st') /\ 0 < n <= Z.of_nat N - i.
+
+  Theorem plain_done : orc_total -> snd (plain_scan orc W input) = Done.
+  Proof.
+    intros Ht. destruct (Nat.eq_dec N 0) as [HN|HN].
+    - destruct input; [reflexivity|discriminate].
+    - apply (run_done Z (plain_segf N orc) plain_reset cell_is_space cell_hasbreak plain_residue
+                        (plain_seg_ok _ _ Hend) input W HW).
+      intros st rest Hne. unfold plain_segf. destruct rest as [|c r]; [congruence|]. set (rest := c :: r) in *.
+      assert (Hl : (0 < length rest)%nat) by (cbn; lia).
+      destruct (Ht (Z.of_nat (N - length rest)) st ltac:(lia)) as [n [br [st' [E Hn]]]].
+      rewrite E. replace ((0 <? n) && (n <=? zlen rest)) with true by (unfold zlen; lia). discriminate.
+  Qed.
+End PlainReadable.
+
+Section RichReadable.
+  Variable pairbrk : cell -> cell -> option bool.
+  Variable input : list cell.
+  Variable W : Z.
+  Notation N := (length input).
+  Hypothesis Htext : text_ok input W.
+  Let HW := proj1 Htext.
+  Let Hwok := proj1 (proj2 Htext).
+  Let Hov := proj2 (proj2 Htext).
+
+  Lemma rich_Hres : forall c r : cell, True -> cell_hasbreak c = true -> In r (rich_residue c) ->
+    cell_is_space r = true /\ cell_is_space r = true.
+  Proof. intros c r _ _ []. Qed.
+
+  Lemma rich_Hgood : Forall (fun _ : cell => True) input.
+  Proof. apply Forall_forall. auto. Qed.
+
+  Theorem rich_lines lines o : rich_scan pairbrk W input = (lines, o) ->
+    (forall l r, In (l, r) lines -> fits cell_is_space W l) /\
+    (o = Done -> W <> 0 ->
+     nonspace cell_is_space (concat (map fst lines)) = nonspace cell_is_space input).
+  Proof.
+    intros H.
+    destruct (run_lines unit (rich_segf cell_hasbreak pairbrk) (fun s => s) cell_is_space cell_hasbreak rich_residue
+                (rich_seg_ok _ _) (fun _ => True) cell_is_space isbrk_isspace (fun c _ h => h) rich_Hres
+                input W HW Hwok Hov rich_Hgood tt lines o H) as [F1 F2].
+    split; [exact F1|]. intros Ho HW0. apply kept_nonspace. auto.
+  Qed.
+
+  Theorem rich_cuts lines o : rich_scan pairbrk W input = (lines, o) ->
+    let B := rich_B cell_hasbreak pairbrk input in
+    let Hd := rich_Hd cell_hasbreak input in
+    (forall c, In c (cuts_of N lines) -> c <> N -> B c = false ->
+       forall a e, (a < c < e)%nat -> (e <= N)%nat -> (a = 0%nat \/ B a = true) -> (e = N \/ B e = true) ->
+         (forall q, (a < q < e)%nat -> B q = false) -> W < sumw (trim_right cell_is_space (sub input a e))) /\
+    (o = Done -> W <> 0 -> forall e, (0 < e <= N)%nat -> Hd e = true -> In e (cuts_of N lines)).
+  Proof.
+    intros H.
+    apply (run_cuts unit (rich_segf cell_hasbreak pairbrk) (fun s => s) cell_is_space cell_hasbreak rich_residue
+             (rich_seg_ok _ _) (fun _ => True) cell_is_space isbrk_isspace (fun c _ h => h) rich_Hres
+             input W HW Hwok Hov rich_Hgood _ _ (fun _ _ => True) (rich_consistent _ _ _)
+             (fun st p q h => h) (rich_HdB _ _ _) tt lines o I H).
+  Qed.
+
+  Lemma fls_go_total hasbreak : (forall a b, pairbrk a b <> None) ->
+    forall cells first i, fls_go hasbreak pairbrk first i cells <> None.
+  Proof.
+    intros Ht. induction cells as [|c t IH]; intros first i; [discriminate|].
+    destruct t as [|nx t']; [discriminate|]. rewrite fls_go_eq.
+    destruct (first && hasbreak c); [discriminate|]. destruct (hasbreak nx); [discriminate|].
+    destruct (pairbrk c nx) as [[|]|] eqn:E; [discriminate|apply IH|]. exfalso. eapply Ht; eauto.
+  Qed.
+
+  Theorem rich_done : (forall a b, pairbrk a b <> None) -> snd (rich_scan pairbrk W input) = Done.
+  Proof.
+    intros Ht. apply (run_done unit (rich_segf cell_hasbreak pairbrk) (fun s => s) cell_is_space cell_hasbreak rich_residue
+                        (rich_seg_ok _ _) input W HW).
+    intros st rest _. unfold rich_segf, first_line_segment.
+    destruct (fls_go cell_hasbreak pairbrk true 0 rest) as [[n br]|] eqn:E; [discriminate|].
+    exfalso. eapply fls_go_total; eauto.
+  Qed.
+End RichReadable.
+
+(* ---------- the oracle hypotheses, decided on a table ---------- *)
+Lemma assoc_In {K V} (eqb : K -> K -> bool) k (l : list (K * V)) v :
+  assoc eqb k l = Some v -> exists k', In (k', v) l /\ eqb k k' = true.
+Proof.
+  induction l as [|[k0 v0] l IH]; cbn; [discriminate|].
+  destruct (eqb k k0) eqn:E.
+  - intros H. injection H as <-. exists k0. auto.
+  - intros H. destruct (IH H) as [k' [H1 H2]]. exists k'. auto.
+Qed.
+
+Lemma tbl_orc_In tbl i st v : tbl_orc tbl i st = Some v -> In ((i, st), v) tbl.
+Proof.
+  intros H. apply assoc_In in H. destruct H as [[i' st'] [H1 H2]].
+  unfold zpair_eqb in H2. cbn in H2. assert (i = i' /\ st = st') by lia. destruct H; subst. exact H1.
+Qed.
+
+Lemma tbl_end_ok N tbl : tbl_end_ok_b N tbl = true -> orc_end_ok N (tbl_orc tbl).
+Proof.
+  intros H i st n br st' E Hn. apply tbl_orc_In in E. unfold tbl_end_ok_b in H.
+  rewrite forallb_forall in H. specialize (H _ E). cbn in H. lia.
+Qed.
+
+Lemma tbl_consistent input B Hd tbl :
+  tbl_consistent_b (length input) B Hd tbl = true -> orc_consistent (tbl_orc tbl) input B Hd.
+Proof.
+  intros H st p n br st' _ Hp E Hn HpN. apply tbl_orc_In in E. unfold tbl_consistent_b in H.
+  rewrite forallb_forall in H. specialize (H _ E). cbn beta iota in H.
+  replace ((0 <=? Z.of_nat p) && (0 <? Z.of_nat n) && (Z.of_nat p + Z.of_nat n <=? Z.of_nat (length input)))
+    with true in H by lia.
+  replace (Z.to_nat (Z.of_nat p + Z.of_nat n)) with (p + n)%nat in H by lia.
+  rewrite Nat2Z.id in H. apply andb_true_iff in H. destruct H as [H H3].
+  apply andb_true_iff in H. destruct H as [H1 H2].
+  split; [|split].
+  - apply orb_true_iff in H1. destruct H1 as [H1|H1]; [left; apply Nat.eqb_eq; auto|right; auto].
+  - intros q Hq. rewrite forallb_forall in H2. specialize (H2 q).
+    rewrite in_seq in H2. specialize (H2 ltac:(lia)). destruct (B q); [discriminate|reflexivity].
+  - apply Bool.eqb_prop in H3. rewrite H3, orb_true_iff, Nat.eqb_eq. tauto.
+Qed.
+
+(* ---------- non-vacuity: uniseg's own answers for "x ab-cd" and "foo\nbar" ---------- *)
+Definition ex_cells (rs : list Z) : list cell := map (fun r => mkCell [r] (if r =? 10 then 0 else 1) 0) rs.
+Definition ex1_input : list cell := ex_cells [120; 32; 97; 98; 45; 99; 100].
+Definition ex1_tbl : plain_tbl :=
+  [((0, -1), (2, false, 27)); ((2, 27), (3, false, 27)); ((1, -1), (1, false, 27)); ((5, 27), (2, true, 0));
+   ((2, -1), (3, false, 27)); ((3, -1), (2, false, 27)); ((4, -1), (1, false, 27)); ((5, -1), (2, true, 0));
+   ((6, -1), (1, true, 0))].
+Definition ex1_B (p : nat) : bool := Nat.eqb p 2 || Nat.eqb p 5.
+Definition ex1_Hd (p : nat) : bool := false.
+
+Definition ex2_input : list cell := ex_cells [102; 111; 111; 10; 98; 97; 114].
+Definition ex2_tbl : plain_tbl :=
+  [((0, -1), (4, true, 27)); ((4, 27), (3, true, 0)); ((1, -1), (3, true, 27)); ((2, -1), (2, true, 27));
+   ((3, -1), (1, true, 27)); ((4, -1), (3, true, 0)); ((5, -1), (2, true, 0)); ((6, -1), (1, true, 0))].
+Definition ex2_B (p : nat) : bool := Nat.eqb p 4.
+Definition ex2_Hd (p : nat) : bool := Nat.eqb p 4.
+
+Lemma ex_hyps :
+  (orc_end_ok (length ex1_input) (tbl_orc ex1_tbl) /\ text_ok ex1_input 2 /\
+   forallb plain_cell_ok ex1_input = true /\ orc_consistent (tbl_orc ex1_tbl) ex1_input ex1_B ex1_Hd /\
+   (forall e, (e < length ex1_input)%nat -> ex1_Hd e = true -> ex1_B e = true)) /\
+  (orc_end_ok (length ex2_input) (tbl_orc ex2_tbl) /\ text_ok ex2_input 2 /\
+   forallb plain_cell_ok ex2_input = true /\ orc_consistent (tbl_orc ex2_tbl) ex2_input ex2_B ex2_Hd /\
+   (forall e, (e < length ex2_input)%nat -> ex2_Hd e = true -> ex2_B e = true)).
+Proof.
+  split; (split; [apply tbl_end_ok; reflexivity|]); (split; [|split; [reflexivity|split; [apply tbl_consistent; reflexivity|]]]).
+  - unfold text_ok. split; [lia|]. split; [repeat constructor; cbn; lia|cbn; lia].
+  - intros e _ H. discriminate.
+  - unfold text_ok. split; [lia|]. split; [repeat constructor; cbn; lia|cbn; lia].
+  - intros e _ H. exact H.
+Qed.
+
+(* ---------- HardwrapScanner ---------- *)
+Definition notnl (l : list cell) : list cell := filter (fun c => negb (is_newline c)) l.
+
+Lemma hard_scan_spec : forall cells line l r, hard_scan cells line = (l, r) ->
+  exists pre, l = line ++ pre /\ notnl pre = pre /\
+    ((cells = pre /\ r = []) \/ exists nl, is_newline nl = true /\ cells = pre ++ nl :: r).
+Proof.
+  induction cells as [|c t IH]; intros line l r H; cbn [hard_scan] in H.
+  - injection H as <- <-. exists []. rewrite app_nil_r. auto.
+  - destruct (is_newline c) eqn:E.
+    + injection H as <- <-. exists []. rewrite app_nil_r. split; [auto|]. split; [auto|]. right. exists c. auto.
+    + apply IH in H. destruct H as [pre [H1 [H2 H3]]]. exists (c :: pre). rewrite <- app_assoc in H1.
+      split; [exact H1|]. split; [unfold notnl in *; cbn; rewrite E; cbn; congruence|].
+      destruct H3 as [[-> ->]|[nl [Hn ->]]]; [left; auto|right; exists nl; auto].
+Qed.
+
+Lemma notnl_app a b : notnl (a ++ b) = notnl a ++ notnl b.
+Proof. apply filter_app. Qed.
+
+(* every emitted line is free of newline cells, and nothing but newline cells is lost *)
+Theorem hard_run_spec cells :
+  Forall (fun l => notnl l = l) (hard_run cells) /\ notnl (concat (hard_run cells)) = notnl cells.
+Proof.
+  unfold hard_run. assert (H : forall fuel cells, (length cells <= fuel)%nat ->
+    Forall (fun l => notnl l = l) (hard_all fuel cells) /\ notnl (concat (hard_all fuel cells)) = notnl cells).
+  { induction fuel as [|fuel IH]; intros cs Hf.
+    - destruct cs; [|cbn in Hf; lia]. cbn. auto.
+    - cbn [hard_all]. destruct cs as [|c t]; [cbn; auto|].
+      destruct (hard_scan (c :: t) []) as [l r] eqn:E.
+      apply hard_scan_spec in E. destruct E as [pre [H1 [H2 H3]]]. cbn [app] in H1. subst l.
+      assert (Hr : (length r <= fuel)%nat).
+      { destruct H3 as [[_ ->]|[nl [_ H3]]]; [cbn; lia|].
+        apply (f_equal (@length cell)) in H3. rewrite app_length in H3. cbn [length] in *. lia. }
+      destruct (IH r Hr) as [I1 I2]. split; [constructor; auto|].
+      cbn [concat]. rewrite notnl_app, I2.
+      destruct H3 as [[-> ->]|[nl [Hn ->]]].
+      + cbn. now rewrite app_nil_r.
+      + rewrite notnl_app. f_equal. unfold notnl. cbn [filter]. rewrite Hn. reflexivity. }
+  apply H. lia.
+Qed.
+
+(* ---------- the uint16 bound of text_ok is needed ---------- *)
+(* a word whose columns add up to 65536 (here, to keep the term small, two cells of 32768 columns;
+   65536 one-column letters behave the same): the uint16 word length wraps to 0, the word
+   "fits" and the whole text is emitted as one line at width 1 *)
+Definition wide_input : list cell := [mkCell [97] 32768 0; mkCell [98] 32768 0].
+Definition wide_orc (i st : Z) : option (Z * bool * Z) := Some (2 - i, true, 0).
+
+Lemma u16_bound_needed :
+  wok wide_input /\ sumw wide_input = 65536 /\ orc_end_ok (length wide_input) wide_orc /\
+  exists lines, plain_scan wide_orc 1 wide_input = (lines, Done) /\
+                exists l r, In (l, r) lines /\ fits_b cell_is_space 1 l = false.
+Proof.
+  split; [repeat constructor; cbn; lia|]. split; [reflexivity|]. split.
+  - intros i st n br st' H _. unfold wide_orc in H. congruence.
+  - exists [(wide_input, 0%nat)]. split; [vm_compute; reflexivity|].
+    exists wide_input, 0%nat. split; [left; reflexivity|vm_compute; reflexivity].
+Qed.
+
+(* width 0: Scan refuses at once, nothing is emitted *)
+Lemma run_width0 St segf reset is_space hasbreak residue input st0 :
+  run St segf reset is_space hasbreak residue 0 input st0 = ([], Done).
+Proof. unfold run. cbn [scan_all]. unfold scan. rewrite orb_true_r. reflexivity. Qed.
+
+(* the two examples, computed *)
+Lemma ex_runs :
+  map (fun x => flat (fst x)) (fst (plain_scan (tbl_orc ex1_tbl) 2 ex1_input)) = [[120; 32]; [97; 98]; [45]; [99; 100]] /\
+  snd (plain_scan (tbl_orc ex1_tbl) 2 ex1_input) = Done /\
+  map (fun x => flat (fst x)) (fst (plain_scan (tbl_orc ex2_tbl) 2 ex2_input)) = [[102; 111]; [111]; [98; 97]; [114]] /\
+  cuts_of 7 (fst (plain_scan (tbl_orc ex2_tbl) 2 ex2_input)) = [2; 4; 6; 7]%nat.
+Proof. vm_compute. repeat split; reflexivity. Qed.
